@@ -126,9 +126,11 @@ class C20(Property):
                            "Python source of the numba kernel find_matches_parallel (.py_func)",
                            "compiled kernel with NUMBA_NUM_THREADS=1 (cross-check only)", "scipy KDTree", "numpy"],
                   "stub": ["numba thread pool -> cryosim.stepper (baton-passing Python threads, sys.settrace pre-emption)",
-                           "memthick.prange -> per-worker iterator over its share of the indices",
+                           "prange loop -> fork/join: source rewritten so that the loop body is a function run by the simulated workers on their share of the indices; code before/after the loop runs once, what it binds is shared",
+                           "numba.get_num_threads()/get_thread_id() inside the kernel -> simulated worker count / worker id",
                            "memthick.time -> logical clock"]}
-    ASSUMPTIONS = ["numba parallel=True semantics: index space partitioned among workers, loop-body scalars private, arrays shared",
+    ASSUMPTIONS = ["numba parallel=True semantics: fork/join at the prange loop; index space partitioned among workers in any way; names plainly assigned in the loop body are iteration-private (first-private), x += ... on an outer name is a reduction, everything bound before the loop is shared",
+                   "pre-emption points are source-line boundaries of the loop body (a single line is atomic)",
                    "the multi-threaded *compiled* kernel is not part of any verdict (its interleaving is not the simulator's)",
                    "distance ties and points within 1e-6 (relative) of the range or cone boundary are excluded from invariance comparisons",
                    "a clean batch is evidence over the sampled seeds, not a proof"]
@@ -365,6 +367,8 @@ class C20(Property):
                     world.fs.fired["preemptions"] += out.value["switches"]
                     world.stats["kernel_line_steps"] += out.value["steps"]
                     world.note("sched %x" % out.value["sig"])
+                    world.probes["stepping_" + out.value["mode"]] += 1
+                    world.stats["parallel_regions"] += out.value["regions"]
                     world.reached("thread_schedules", "%x" % out.value["sig"])
                     if stall:
                         world.fs.fired["worker_stall"] += 1
